@@ -67,6 +67,12 @@ impl InodeStore {
         data
     }
 
+    /// Verification hook: number of live inode objects.
+    #[cfg(fuse_backend_rs_verif)]
+    pub fn verif_len(&self) -> usize {
+        self.data.len()
+    }
+
     pub fn clear(&mut self) {
         self.data.clear();
         self.by_handle.clear();
